@@ -1,0 +1,30 @@
+//go:build verif
+
+package main
+
+// Contracts for the verification machinery in /verif (govc).  This file is
+// comment-only and is compiled only with -tags verif.
+
+// rmain: start-up failures end with a non-zero status and a message, never
+// with a nil dereference; the terminal is not left in raw mode.
+//@ func rmain() (code)
+//@   props C20
+//@   ghost raw bool = false
+//@   ghost shellErr bool = false
+//@   ghost iobErr bool = false
+//@   ghost logErr bool = false
+//@   ghost hsrvErr bool = false
+//@   ghost ipErr bool = false
+//@   ghost nFatal int = 0
+//@   ghost said bool = false
+//@   on call iobroker.New(i, o) (b, e): iobErr = e != nil
+//@   on call os.OpenFile(n, fl, pm) (f, e): logErr = e != nil
+//@   on call opshell.New(i, o, p, nt, g, n) (sh, cl, e): shellErr = e != nil; raw = e == nil
+//@   on call ezicanhazip.IPv4() (a, e): ipErr = e != nil
+//@   on call hsrv.New(sl, a, fd, tf, i, o, b, cf, cb, p6, one) (s, e): hsrvErr = e != nil
+//@   on enter cleanup(): raw = false
+//@   on enter log.Printf(f, v): said = true
+//@   on enter opshell.Shell.Logf(sh, c, nts, f, v): said = true
+//@   on enter log.Fatalf(f, v): assert(!raw, "no_fatal_exit_while_terminal_is_raw"); nFatal++
+//@   ensures terminal_restored: !raw
+//@   ensures failures_nonzero: imp(iobErr || hsrvErr || ipErr, code != 0 && said)
